@@ -25,6 +25,11 @@ class Unsupported(Exception):
     """construct outside the modelled subset: the function is *undecided*"""
 
 
+class FrameViolation(Exception):
+    """raised by the replay harness (never by the code under test): the real call modified one of the
+    caller's arrays or parameter objects"""
+
+
 class ModelLimit(Exception):
     """the path leaves the number model (inf, overflow); see DESIGN T3"""
 
